@@ -63,9 +63,7 @@ pub fn sigma_full() -> Vec<&'static str> {
 pub fn is_c02_excluded(lex: &str) -> bool {
     ["select", "option", "optgroup", "selectedcontent", "hr", "keygen", "isindex", "search", "dialog", "datalist"]
         .iter()
-        .any(|n| lex.starts_with(&format!("<{n}")) || lex.starts_with(&format!("</{n}")))
-        || lex == "<input>"
-        || lex == "<input type=hidden>"
+        .any(|n| lex.starts_with(&format!("<{n}>")) || lex.starts_with(&format!("<{n} ")) || lex.starts_with(&format!("</{n}>")))
 }
 
 pub fn render(lex: &[&str], h: &[u16]) -> String {
@@ -102,6 +100,7 @@ pub fn witness(cfg: &TreeCfg, sched: &[Feed], env: &Env) -> String {
 
 #[derive(Clone, Copy, PartialEq)]
 pub enum Prop {
+    C02,
     C04,
     C05,
     C06,
@@ -135,6 +134,7 @@ pub fn judge(prop: Prop, cfg: &TreeCfg, out: &Result<TreeOut, String>) -> Option
     };
     let sink = o.sink.as_ref().unwrap();
     match prop {
+        Prop::C02 => {},
         Prop::C04 => {
             if let Some(p) = o.problems.first() {
                 return Some(("totality".into(), p.clone()));
@@ -204,6 +204,15 @@ pub fn explore(ctx: &Ctx, prop: Prop, job: &Job, env: &Env, stats: &Stats, max_s
             if let Some((kind, msg)) = judge(prop, &job.cfg, &r) {
                 ctx.violation(&kind, &witness(&job.cfg, &sched, env), json!({"message": msg, "job": job.name, "input": render(lex, &nh)}));
                 return Step::Violation;
+            }
+            if prop == Prop::C02 {
+                if let Ok(o) = &r {
+                    let input = format!("{}{}", job.prefix.concat(), render(lex, &nh));
+                    if let Some((kind, msg)) = crate::c02::compare(&job.cfg, &input, o) {
+                        ctx.violation(&kind, &witness(&job.cfg, &sched, env), json!({"message": msg, "job": job.name, "input": input}));
+                        return Step::Violation;
+                    }
+                }
             }
             match r {
                 Ok(o) => {
@@ -336,6 +345,7 @@ pub fn jobs(tier: Tier, full: bool) -> Vec<Job> {
             continue;
         }
         let depth = tier.pick(5, 7);
+        let s: Vec<&'static str> = if full { s } else { s.into_iter().filter(|l| !is_c02_excluded(l)).collect() };
         v.push(Job { name: format!("J2/{n}"), cfg: TreeCfg::default(), prefix: vec![], sigma: s, depth });
     }
     for f in fragment_contexts() {
@@ -351,7 +361,7 @@ pub fn jobs(tier: Tier, full: bool) -> Vec<Job> {
 
 pub fn main(ctx: &Ctx, prop: Prop) -> ! {
     let stats = Stats { execs: AtomicU64::new(0), outcomes: Mutex::new(BTreeSet::new()), sink_calls_checked: AtomicU64::new(0), collected: AtomicU64::new(0) };
-    let mut js = jobs(ctx.tier, true);
+    let mut js = jobs(ctx.tier, prop != Prop::C02);
     let budget = ctx.tier.pick(40.0, 900.0);
     let mut env = Env::default();
     env.invariants = prop == Prop::C04;
@@ -393,6 +403,7 @@ pub fn main(ctx: &Ctx, prop: Prop) -> ! {
         crate::c04::extra(ctx, &stats);
     }
     let (level, rule) = match prop {
+        Prop::C02 => ("model_checking", "after end() of every execution the final DOM (kinds, order, names, namespaces, attributes with namespace/prefix/value, text, comments, doctype, template contents, duplicate-attribute flag) and the quirks mode reported to the sink must equal what R-tok + R-tree (reference transliteration of the WHATWG algorithms) compute for the same input and configuration"),
         Prop::C04 => ("fault_enumeration", "every execution of the tree-level jobs (all lexeme strings up to the job depth, chunk per lexeme): no panic, feed() leaves the queue empty unless suspended, end() returns, tree-builder state invariants at every suspension point; plus option vectors, scale grid and xml5ever jobs"),
         Prop::C05 => ("model_checking", "monitor on every TreeSink call of every execution: element-only ops get elements created by this sink, appended children are parentless, no insertion under self/descendant, reference sibling non-text with a parent, one doctype before any element, no duplicate qualified names in attribute lists"),
         Prop::C06 => ("model_checking", "skeleton predicate on the final DOM of every document-parse execution"),
@@ -470,6 +481,21 @@ pub fn parse_tree_witness(w: &str) -> (TreeCfg, Vec<Feed>, Env) {
 pub fn replay(ctx: &Ctx, prop: Prop, v: &serde_json::Value) {
     let w = v["witness"].as_str().unwrap_or("");
     let (mut cfg, sched, mut env) = parse_tree_witness(w);
+    if prop == Prop::C02 {
+        let input: String = sched.iter().map(|f| if let Feed::Chunk(s) = f { s.as_str() } else { "" }).collect();
+        let r = guarded(|| run_tree(&cfg, &sched, &env, true));
+        if let Ok(o) = &r {
+            match crate::c02::compare(&cfg, &input, o) {
+                None => println!("replay: passes"),
+                Some((k, m)) => {
+                    println!("{m}");
+                    ctx.violation(&k, w, json!({ "message": m }));
+                    println!("replay: FAILS");
+                },
+            }
+        }
+        return;
+    }
     cfg.with_rcdom = prop == Prop::C20;
     env.invariants = prop == Prop::C04;
     let r = guarded(|| run_tree(&cfg, &sched, &env, true));
